@@ -53,6 +53,7 @@ from spec.widget_trees import LEAF_KINDS, Drawn, Tree, desc_at, leaf_need, mode,
 
 ID = "C09"
 MAXC, MAXR = 12, 8
+FAST = True  # see judge_move: unrendered fast path first, every failure re-judged by the full procedure
 CLAUSES = {
     "cursor-report": "get_cursor_coords(size) of a never-rendered tree equals render(size, focus=True).cursor (focus leaf is an Edit / SelectableIcon / Button / CheckBox)",
     "cursor-drawn": "the rendered cursor is the drawn top-left corner of the focus leaf plus that leaf's own cursor (None iff the leaf shows none)",
@@ -242,7 +243,7 @@ def judge_mouse(desc, size, dr, tree, col, row, event, button):
             sib = [q for q in dr.tree.nodes[p[:-1]]._kids if q != p and q in dr.rect and dr.contains(q, col, row)]
             if sib:
                 problems.append(f"node {list(p)} ({dr.tree.kind[p]}) is not drawn at the cell (rect {list(dr.rect[p])}) but received {got[p]}, while node {list(sib[0])} is drawn there")
-            else:
+            elif event == "mouse release":
                 PADDING_DELIVERIES[dr.tree.kind[p[:-1]]] = PADDING_DELIVERIES.get(dr.tree.kind[p[:-1]], 0) + 1
         elif inside:
             x0, y0, _c, _r = dr.rect[p]
@@ -270,7 +271,7 @@ def _rendered_tree(desc, size):
     return t
 
 
-def expected_move(desc, size, dr, col, row):
+def expected_move(desc, size, dr, col, row, fast=False):
     """Reference answer(s) for root.move_cursor_to_coords(size, col, row): list of (child path | None,
     expected success, note).  More than one entry only for ties between equally near children."""
     root = dr.tree.root
@@ -305,7 +306,7 @@ def expected_move(desc, size, dr, col, row):
         if not (y0 <= row < y0 + r):
             out.append((p, False, f"child {list(p)} is not drawn on row {row} (its rows are {y0}..{y0 + r - 1})"))
             continue
-        twin = _rendered_tree(desc, size).nodes[p]  # a twin of the child, in the same (rendered) state
+        twin = (Tree(desc) if fast else _rendered_tree(desc, size)).nodes[p]  # a twin of the child, in the same state
         cx, cy = min(max(col - x0, 0), c - 1), row - y0
         if hasattr(twin, "move_cursor_to_coords"):
             try:
@@ -319,35 +320,77 @@ def expected_move(desc, size, dr, col, row):
     return out
 
 
-def judge_move(desc, size, dr, col, row):
-    """-> (ok, nontrivial, detail).  The tree is built and rendered at `size` first (the statement is about
-    a rendered tree; asking a never-rendered GridFlow is C08's stale-display-widget matter)."""
-    t = _rendered_tree(desc, size)
+def _focus_path(t):
+    """Path of the leaf at the end of the focus chain, read from the widgets' own focus attributes."""
+    p = ()
+    while t.kind[p] not in LEAF_KINDS:
+        w = t.nodes[p]
+        if t.kind[p] in ("attr", "linebox", "padding", "filler", "boxadapter"):
+            p = (*p, 0)
+            continue
+        f = w.focus
+        nxt = [q for q in w._kids if t.nodes[q] is f]
+        if len(nxt) != 1:
+            return None
+        p = nxt[0]
+    return p
+
+
+def judge_move(desc, size, dr, col, row, fast=True):
+    """-> (ok, nontrivial, detail).
+
+    Full procedure (fast=False): the tree is built and rendered at `size` first (the statement is about a
+    rendered tree; asking a never-rendered GridFlow is C08's stale-display-widget matter), likewise the
+    twin that answers for the child; after a successful move the tree is rendered again to find the focus
+    leaf and the rectangles.  Fast path: no rendering (rendering has no bearing on the answer except
+    through GridFlow's display widget, so trees with a GridFlow always take the full procedure), focus
+    leaf read from the widgets' focus attributes, rectangles from the first rendering.  A failure on the
+    fast path is never reported: the case is judged again by the full procedure."""
+    fast = fast and "gridflow" not in dr.tree.kind.values()
+    t = Tree(desc) if fast else _rendered_tree(desc, size)
     if not hasattr(t.root, "move_cursor_to_coords"):
         return True, False, None
-    exp = expected_move(desc, size, dr, col, row)
+
+    def again():
+        return judge_move(desc, size, dr, col, row, fast=False)
+
+    exp = expected_move(desc, size, dr, col, row, fast)
     try:
         res = t.root.move_cursor_to_coords(size, col, row)
     except Exception as e:  # noqa: BLE001
+        if fast:
+            return again()
         return False, True, _detail(desc, size, f"move_cursor_to_coords raised {type(e).__name__}: {e}", f"move raised {type(e).__name__}", cell=[col, row])
     ok_res = bool(res)
     if not any(e[1] is None or e[1] == ok_res for e in exp):
+        if fast:
+            return again()
         kid = exp[0][0]
-        ck = dr.tree.kind[kid] if kid is not None else "-"
+        ck = dr.tree.kind[kid] if kid is not None else "none drawn on the row; children: " + ",".join(sorted({dr.tree.kind[q] for q in dr.tree.root._kids}))
         return False, True, _detail(desc, size, f"returned {res!r}; reference: {'; '.join(e[2] for e in exp)}", f"move returned {ok_res} expected {exp[0][1]} child={ck}", cell=[col, row], returned=repr(res))
     if not ok_res:
         return True, True, None
     try:
         after = _tup(t.root.get_cursor_coords(size)) if hasattr(t.root, "get_cursor_coords") else None
     except Exception as e:  # noqa: BLE001
+        if fast:
+            return again()
         return False, True, _detail(desc, size, f"get_cursor_coords after a successful move raised {type(e).__name__}: {e}", f"cursor after move raised {type(e).__name__}", cell=[col, row])
-    d2 = Drawn(t, size)
-    if d2.error or d2.unfit:
-        return False, True, _detail(desc, size, f"after the successful move the tree no longer renders whole: {d2.error or d2.unfit}", "unfit after move", cell=[col, row])
-    k2, fl2 = focus_leaf_kind(d2)
-    if len(fl2) != 1:
-        return False, True, _detail(desc, size, f"after the successful move {len(fl2)} leaves are rendered with focus", "focus leaves after move", cell=[col, row])
-    leaf = fl2[0]
+    if fast:
+        leaf = _focus_path(t)
+        if leaf is None:
+            return again()
+        rects = dr.rect
+        k2 = t.kind[leaf]
+    else:
+        d2 = Drawn(t, size)
+        if d2.error or d2.unfit:
+            return False, True, _detail(desc, size, f"after the successful move the tree no longer renders whole: {d2.error or d2.unfit}", "unfit after move", cell=[col, row])
+        k2, fl2 = focus_leaf_kind(d2)
+        if len(fl2) != 1:
+            return False, True, _detail(desc, size, f"after the successful move {len(fl2)} leaves are rendered with focus", "focus leaves after move", cell=[col, row])
+        leaf = fl2[0]
+        rects = d2.rect
     # "afterwards the reported cursor is on the requested row".  A widget on the new focus chain that does
     # not define move_cursor_to_coords (SelectableIcon; ListBox, Frame, Overlay) cannot be asked to place
     # its cursor: it takes the focus as a whole.  For the first such widget N the demand is: the requested
@@ -357,17 +400,25 @@ def judge_move(desc, size, dr, col, row):
     blocker = next((p for p in chain if not hasattr(t.nodes[p], "move_cursor_to_coords")), None)
     if blocker is None:
         if after is None:
+            if fast:
+                return again()
             if t.nodes[leaf]._last[2].cursor is None:
-                return True, False, None  # Button: shows no cursor at all
+                return True, False, None  # a leaf that shows no cursor at all
             return False, True, _detail(desc, size, f"move succeeded but get_cursor_coords reports no cursor (focus leaf {list(leaf)}, {k2})", "no cursor after move", cell=[col, row])
         if after[1] != row:
+            if fast:
+                return again()
             return False, True, _detail(desc, size, f"move to row {row} succeeded but the reported cursor is {after}", f"cursor row after move leaf={k2}", cell=[col, row], after=after)
         return True, True, None
-    _x, by, _c, br = d2.rect[blocker]
+    _x, by, _c, br = rects[blocker]
     bk = t.kind[blocker]
     if not (by <= row < by + br):
+        if fast:
+            return again()
         return False, True, _detail(desc, size, f"move to row {row} succeeded, the focus went to {bk} {list(blocker)} which is drawn on rows {by}..{by + br - 1}; reported cursor {after}", f"focus went to a widget not on the row ({bk})", cell=[col, row], after=after)
     if after is not None and not (by <= after[1] < by + br):
+        if fast:
+            return again()
         return False, True, _detail(desc, size, f"move to row {row} succeeded, focus on {bk} {list(blocker)} (rows {by}..{by + br - 1}) but the reported cursor is {after}", f"cursor outside the focused widget ({bk})", cell=[col, row], after=after)
     return True, br == 1, None
 
@@ -444,6 +495,7 @@ def eval_size(desc, size, dr, tallies, press=True, cells=None):
     kind, _fl = focus_leaf_kind(dr)
     in_quantifier = kind in ("edit", "icon", "button", "check")  # focus chain implements the cursor protocol
     has_move = hasattr(dr.tree.root, "move_cursor_to_coords")
+    has_grid = "gridflow" in dr.tree.kind.values()
     for row in range(dr.rows):
         for col in range(dr.cols):
             if cells is not None and (col, row) not in cells:
@@ -452,13 +504,14 @@ def eval_size(desc, size, dr, tallies, press=True, cells=None):
             ok, det = judge_mouse(desc, size, dr, dr.tree, col, row, "mouse release", 0)
             tallies["mouse-hit"].case(ok, _fin(desc, dr, det), True, s2)
             if press:
-                t = Tree(desc)
-                CanvasCache.clear()
-                t.root.render(size, True)
-                ok, det = judge_mouse(desc, size, dr, t, col, row, "mouse press", 1)
+                # fast path without rendering first (never reported); the verdict comes from a rendered tree
+                ok = FAST and not has_grid and judge_mouse(desc, size, dr, Tree(desc), col, row, "mouse press", 1)[0]
+                det = None
+                if not ok:
+                    ok, det = judge_mouse(desc, size, dr, _rendered_tree(desc, size), col, row, "mouse press", 1)
                 tallies["mouse-press"].case(ok, _fin(desc, dr, det), True, s2)
             if has_move and in_quantifier:
-                ok, nt, det = judge_move(desc, size, dr, col, row)
+                ok, nt, det = judge_move(desc, size, dr, col, row, fast=FAST)
                 tallies["move-cursor"].case(ok, _fin(desc, dr, det), nt, s2)
     if not has_move and in_quantifier:
         tallies["move-cursor"].case(True, None, False, sample)
@@ -698,12 +751,9 @@ def replay(check_name, case):
         elif clause == "mouse-hit":
             ok, det = judge_mouse(desc, size, dr, dr.tree, case["cell"][0], case["cell"][1], "mouse release", 0)
         elif clause == "mouse-press":
-            t = Tree(desc)
-            CanvasCache.clear()
-            t.root.render(size, True)
-            ok, det = judge_mouse(desc, size, dr, t, case["cell"][0], case["cell"][1], "mouse press", 1)
+            ok, det = judge_mouse(desc, size, dr, _rendered_tree(desc, size), case["cell"][0], case["cell"][1], "mouse press", 1)
         elif clause == "move-cursor":
-            ok, _nt, det = judge_move(desc, size, dr, case["cell"][0], case["cell"][1])
+            ok, _nt, det = judge_move(desc, size, dr, case["cell"][0], case["cell"][1], fast=False)
         else:
             raise ValueError(check_name)
     return {"outcome": "not-reproduced" if ok else "confirmed", "detail": det or {}}
